@@ -66,7 +66,11 @@ func (u *Universe) enter(fi *FuncInfo) (*Ctx, *Path, *frame, *SpecEnv) {
 		var val Value
 		switch ut := t.Underlying().(type) {
 		case *types.Slice:
-			if v == fi.Sig.Params().At(fi.Sig.Params().Len()-1) && fi.Sig.Variadic() {
+			if isOptionList(t) {
+				nm := "in_" + sanitize(v.Name())
+				c.declare(nm, STag)
+				val = Term{S: nm, Sort: STag}
+			} else if v == fi.Sig.Params().At(fi.Sig.Params().Len()-1) && fi.Sig.Variadic() {
 				val = &VariadicVal{Symbolic: true, Name: "in_" + v.Name()}
 			} else if b, ok := ut.Elem().Underlying().(*types.Basic); ok && b.Kind() == types.String {
 				arr := Term{S: "in_" + v.Name() + "_arr", Sort: SArrIS}
@@ -170,6 +174,13 @@ func (u *Universe) runFunc(c *Ctx, p *Path, fr *frame, env0 *SpecEnv, mode runMo
 			env.Vars[k] = v
 		}
 		bindResults(env, fi, q)
+		for gk, gv := range q.Ghosts {
+			var gt types.Type
+			if cg := ct.ghostSpec(gk); cg != nil && cg.Fi != nil && cg.Fi.Sig.Results().Len() > cg.Res {
+				gt = cg.Fi.Sig.Results().At(cg.Res).Type()
+			}
+			env.Vars[gk] = valueToSV(gv, gt)
+		}
 		for ei, en := range ct.Ensures {
 			if mode.labels != nil {
 				if !hasLabel(en.Labels, mode.labels) {
@@ -320,6 +331,15 @@ func (st *SpecTables) domainValues(dom string) ([]int64, []string, error) {
 		for k := lo; k <= hi; k++ {
 			vs = append(vs, int64(k))
 			ns = append(ns, fmt.Sprint(k))
+		}
+		return vs, ns, nil
+	}
+	if parts[1] == "SEV" {
+		var vs []int64
+		var ns []string
+		for _, sv := range fam.Severity {
+			vs = append(vs, sv.N)
+			ns = append(ns, sv.Name)
 		}
 		return vs, ns, nil
 	}
@@ -848,6 +868,34 @@ func (u *Universe) verifyScenario(fi *FuncInfo, sc *ScenarioSpec) *FuncResult {
 		env.Vars[r.Name()] = sv
 	}
 	for pname, e := range sc.Binds {
+		// option lists: noopts() / optlist(l) / optlist2(l1, l2) build the real closures of WithOptionsLanguage
+		if e.Op == "call" && (e.Name == "noopts" || e.Name == "optlist" || e.Name == "optlist2") {
+			vv := &VariadicVal{}
+			wol := u.Funcs[aliasOf(fi.Obj.Pkg())+".WithOptionsLanguage"]
+			for _, a := range e.Args {
+				av := env.eval(a)
+				if env.Err != nil || wol == nil {
+					u.problem("%s scenario %s: option list: %v", fi.Key, sc.Name, env.Err)
+					return res
+				}
+				pvs := fr.callInline(p, &ast.CallExpr{Fun: ast.NewIdent("WithOptionsLanguage")}, wol, nil, []Value{av.T})
+				if len(pvs) != 1 {
+					u.problem("%s scenario %s: WithOptionsLanguage has %d paths", fi.Key, sc.Name, len(pvs))
+					return res
+				}
+				p = pvs[0].P
+				env.P = p
+				vv.Elems = append(vv.Elems, pvs[0].V)
+			}
+			for i := 0; i < fi.Sig.Params().Len(); i++ {
+				prm := fi.Sig.Params().At(i)
+				if prm.Name() == pname {
+					p.Vars[prm] = vv
+				}
+			}
+			delete(env.Vars, pname)
+			continue
+		}
 		v := env.eval(e)
 		if env.Err != nil {
 			u.problem("%s scenario %s bind %s: %v", fi.Key, sc.Name, pname, env.Err)
@@ -900,4 +948,85 @@ func (u *Universe) verifyScenario(fi *FuncInfo, sc *ScenarioSpec) *FuncResult {
 	res.Untrans = c.Untrans
 	res.Axioms = c.AxiomsUsed
 	return res
+}
+
+// ---------------------------------------------------------------------------
+// function summaries: for a pure function marked `summary`, its result as an if-then-else term over its parameters
+// (from the symbolic execution of the real body) becomes the prelude function fn_<key>, usable in lemmas about the
+// function as a whole (injectivity of name tables, fallback rules, relations between two functions).
+
+func summaryName(key string) string { return "fn_" + sanitize(key) }
+
+func (u *Universe) buildSummaries() string {
+	var sb strings.Builder
+	keys := sortedKeys(u.Contracts)
+	for _, k := range keys {
+		ct := u.Contracts[k]
+		fi := u.Funcs[k]
+		if !ct.Summary || fi == nil || fi.Decl.Body == nil {
+			continue
+		}
+		c, p, fr, _ := u.enter(fi)
+		c.NoSafety = true
+		live := fr.execBlock([]*Path{p}, fi.Decl.Body.List)
+		for _, q := range live {
+			if !q.Dead {
+				fr.finish(q, nil)
+			}
+		}
+		if len(c.Untrans) > 0 {
+			u.problem("summary of %s: %s", k, strings.Join(c.Untrans, "; "))
+			continue
+		}
+		var params []string
+		var psorts []string
+		add := func(v *types.Var) {
+			params = append(params, "in_"+sanitize(v.Name()))
+			psorts = append(psorts, u.sortOfType(v.Type()))
+		}
+		if r := fi.Sig.Recv(); r != nil {
+			add(r)
+		}
+		for i := 0; i < fi.Sig.Params().Len(); i++ {
+			add(fi.Sig.Params().At(i))
+		}
+		rsort := u.sortOfType(fi.Sig.Results().At(0).Type())
+		body := zeroTerm(rsort)
+		ok := true
+		for i := len(*fr.rets) - 1; i >= 0; i-- {
+			q := (*fr.rets)[i]
+			if q.Dead || len(q.Ret) != 1 {
+				continue
+			}
+			rt, isT := q.Ret[0].(Term)
+			if !isT {
+				ok = false
+				break
+			}
+			body = tIte(tAnd(q.Conds...), rt, body)
+		}
+		for _, d := range c.DeclOrder {
+			isParam := false
+			for _, pn := range params {
+				if pn == d {
+					isParam = true
+				}
+			}
+			if !isParam && strings.Contains(body.S, d) {
+				ok = false
+			}
+		}
+		if !ok {
+			u.problem("summary of %s: result is not a term of the parameters", k)
+			continue
+		}
+		var ps []string
+		for i := range params {
+			ps = append(ps, "("+params[i]+" "+smtSort(psorts[i])+")")
+		}
+		name := summaryName(k)
+		fmt.Fprintf(&sb, "(define-fun %s (%s) %s %s)\n", name, strings.Join(ps, " "), smtSort(rsort), body.S)
+		u.Specs[name] = &SpecSig{Name: name, Params: psorts, Result: rsort}
+	}
+	return sb.String()
 }
